@@ -19,6 +19,7 @@ ALIAS = {
     "client-is-first-server-host": {"client_ip": 2, "server_ip": 1, "client_port": 0},
     "all-different": {"client_ip": 1, "server_ip": 1, "client_port": 1},
     "servers-swapped-roles": {"client_ip": 2, "server_ip": 2, "client_port": 1},
+    "servers-swapped-roles-same-ports": {"client_ip": 2, "server_ip": 2, "client_port": 0},
 }
 
 
@@ -47,6 +48,8 @@ def configs(tier, seed):
                 shapes = [(4, 8), (0, 8), (8, 0), (0, 0), (20, 20)]
             for sh in shapes:
                 als = aliases
+                if tier == "quick" and pair == "tls+tls":
+                    als = list(ALIAS)          # all aliasing patterns (cheap for TLS): incl. the two hosts with swapped roles
                 if tier == "quick" and pair == "quic+quic":
                     als = aliases[:2] if sh == (0, 8) else aliases[:1]
                 if tier == "quick" and pair == "tls+quic":
